@@ -418,6 +418,20 @@ func (c *Ctx) cmp(op Op, a, b *Term) *Term {
 	}
 	return c.node(op, Bool, 0, 0, "", a, b)
 }
+// cmpFToS: signed comparison of int64(monotone FP chain over an integer) with
+// a constant becomes a comparison on the integer leaf (see mono.go).
+func (c *Ctx) cmpFToS(a, b *Term, opL, opR int) *Term {
+	if a.Sort.W != 64 {
+		return nil
+	}
+	if a.Op == OpFToS && b.Op == OpConst {
+		return c.cmpToIntConst(a.Args[0], opL, int64(b.C))
+	}
+	if b.Op == OpFToS && a.Op == OpConst {
+		return c.cmpToIntConst(b.Args[0], opR, int64(a.C))
+	}
+	return nil
+}
 func isZero(t *Term) bool { return t.Op == OpConst && t.C == 0 }
 func isOne(t *Term) bool  { return t.Op == OpConst && t.C == 1 }
 
@@ -664,11 +678,17 @@ func (c *Ctx) SLt(a, b *Term) *Term {
 	if a == b {
 		return c.ff
 	}
+	if r := c.cmpFToS(a, b, 3, 1); r != nil {
+		return r
+	}
 	return c.cmp(OpSLt, a, b)
 }
 func (c *Ctx) SLe(a, b *Term) *Term {
 	if a == b {
 		return c.tt
+	}
+	if r := c.cmpFToS(a, b, 2, 0); r != nil {
+		return r
 	}
 	return c.cmp(OpSLe, a, b)
 }
@@ -939,7 +959,14 @@ func (c *Ctx) FRnd(a *Term, mode int) *Term {
 }
 func (c *Ctx) SToF(a *Term, s Sort) *Term { return c.node(OpSToF, s, 0, 0, "", a) }
 func (c *Ctx) UToF(a *Term, s Sort) *Term { return c.node(OpUToF, s, 0, 0, "", a) }
-func (c *Ctx) FToS(a *Term, w int) *Term  { return c.node(OpFToS, BV(w), 0, 0, "", a) }
+func (c *Ctx) FToS(a *Term, w int) *Term {
+	if w == 64 {
+		if r := c.smallFToS(a); r != nil {
+			return r
+		}
+	}
+	return c.node(OpFToS, BV(w), 0, 0, "", a)
+}
 func (c *Ctx) FToU(a *Term, w int) *Term  { return c.node(OpFToU, BV(w), 0, 0, "", a) }
 func (c *Ctx) FIsNaN(a *Term) *Term       { return c.node(OpFIsNaN, Bool, 0, 0, "", a) }
 func (c *Ctx) FIsInf(a *Term) *Term       { return c.node(OpFIsInf, Bool, 0, 0, "", a) }
